@@ -206,6 +206,46 @@ func credDefects() []credDefect {
 			r.Query = strings.Replace(r.Query, "&X-Amz-Expires=600", "", 1)
 			return sg
 		}},
+		// a signed query key re-spelled so that it reads as the signed key only after a second url-decoding
+		// ('tagging' -> '%2574agging'): the handlers see another request than the one the signature covers
+		{"presigned-query-key-respelled", func(r *gw.Req, ph string) gw.Signed {
+			sg := gw.Presign(r, gw.Root, gw.SignOpts{}, 600)
+			parts := strings.Split(r.Query, "&")
+			done := false
+			for i, p := range parts {
+				if p != "" && !strings.HasPrefix(p, "X-Amz-") && !done {
+					parts[i] = fmt.Sprintf("%%25%02X", p[0]) + p[1:]
+					done = true
+				}
+			}
+			if !done {
+				// no parameter of its own: an added key that a lax re-parse of the rebuilt url drops (';' in the key)
+				parts = append(parts, "versions%3Bx=1")
+			}
+			r.Query = strings.Join(parts, "&")
+			return sg
+		}},
+		{"presigned-query-appended-key-with-semicolon", func(r *gw.Req, ph string) gw.Signed {
+			sg := gw.Presign(r, gw.Root, gw.SignOpts{}, 600)
+			r.Query += "&acl%3Bx=1"
+			return sg
+		}},
+		{"presigned-query-pairs-fused", func(r *gw.Req, ph string) gw.Signed {
+			sg := gw.Presign(r, gw.Root, gw.SignOpts{}, 600)
+			// 'a=1&b=2' -> 'a%3D1%26b=2': one odd key to the handlers, the two signed parameters after a second decoding
+			parts := strings.Split(r.Query, "&")
+			if len(parts) >= 2 && !strings.HasPrefix(parts[0], "X-Amz-") && strings.Contains(parts[0], "=") {
+				fused := strings.Replace(parts[0], "=", "%3D", 1) + "%26" + parts[1]
+				r.Query = strings.Join(append([]string{fused}, parts[2:]...), "&")
+			} else {
+				r.Query += "&x-verif-extra%3D1%26y=2"
+			}
+			return sg
+		}},
+		{"presigned-dated-1h-in-the-future", func(r *gw.Req, ph string) gw.Signed {
+			sg := gw.Presign(r, gw.Root, gw.SignOpts{Time: time.Now().Add(time.Hour)}, 600)
+			return sg
+		}},
 		{"presigned-expires-8days", func(r *gw.Req, ph string) gw.Signed {
 			sg := gw.Presign(r, gw.Root, gw.SignOpts{}, 8*24*3600)
 			return sg
@@ -243,8 +283,8 @@ func c02PathVariants(ep *EP, r *gw.Req) []struct {
 // C02: endpoint × path shape × credential defect × body/encoding × target state.
 func C02(r *ck.Run) {
 	r.Rule("every endpoint shape of the table (S3 + admin) × path form (plain, trailing slash, key ending in '/') × every credential defect × body/encoding variants; each request is bracketed by byte-exact snapshots of root, versioning, sidecar and IAM directories; distinct = (config, endpoint, path form, defect, body mode)")
-	r.Assume("bookkeeping the API cannot show (empty .sgwtmp directories, unreferenced temp files directly in .sgwtmp) is ignored by the snapshot comparison")
-	cfgs := []gw.Opts{{}, {Versioning: true}, {Sidecar: true}}
+	r.Assume("empty .sgwtmp directories are bookkeeping the API cannot show and are ignored by the snapshot comparison; temp files in them are compared separately (a refused request must not leave one behind)")
+	cfgs := []gw.Opts{{}, {Versioning: true}, {Sidecar: true}, {NoTmpFile: true}}
 	if r.Thorough() {
 		cfgs = append(cfgs, gw.Opts{NoTmpFile: true, Versioning: true}, gw.Opts{Sidecar: true, NoTmpFile: true})
 	}
@@ -254,7 +294,7 @@ func C02(r *ck.Run) {
 		idx := 0
 		for ci, cfg := range cfgs {
 			var w *World
-			var base gw.Snap
+			var base, baseTmp gw.Snap
 			fresh := func() {
 				if w != nil {
 					w.Close()
@@ -265,6 +305,7 @@ func C02(r *ck.Run) {
 					Must(w.F.Do(gw.Root, "PUT", "/"+w.Bucket, "versioning", nil, []byte("<VersioningConfiguration><Status>Enabled</Status></VersioningConfiguration>")), "enable versioning")
 				}
 				base = w.F.G.Snapshot(gw.SnapOpts{IgnoreTmp: true})
+				baseTmp = w.F.G.Snapshot(gw.SnapOpts{OnlyTmpFiles: true})
 			}
 			fresh()
 			if ci == 0 {
@@ -352,6 +393,12 @@ func C02(r *ck.Run) {
 								}
 								if len(diff) > 0 {
 									anomalies = append(anomalies, "state-changed")
+								}
+								// what the request delivered must not stay behind in a temp file either
+								tmpDiff := baseTmp.Diff(w.F.G.Snapshot(gw.SnapOpts{OnlyTmpFiles: true}), 4)
+								if len(tmpDiff) > 0 {
+									anomalies = append(anomalies, "temp-file-left-behind")
+									diff = append(diff, tmpDiff...)
 								}
 								if resp.Err == nil {
 									for _, c := range w.Canaries() {
